@@ -31,6 +31,8 @@ CentreChoices == { NoD, D("Tetrahedral", <<1,2,3,4,5>>, 1), D("Tetrahedral", <<1
                    D("Tetrahedral", <<1,3,2,4,5>>, -1),        \* = the +1 one, other spelling
                    D("SquarePlanar", <<1,2,3,4,5>>, 0), D("Tetrahedral", <<1,2,3,4,NoAtom>>, 1),
                    D("TrigonalBipyramidal", <<1,4,5,2,3,NoAtom>>, 1) }
+(* the transition state may additionally carry a descriptor of unspecified parity *)
+TSChoices == CentreChoices \cup { D("Tetrahedral", <<1,2,3,4,5>>, NoPar), D("TrigonalBipyramidal", <<1,4,5,2,3,NoAtom>>, NoPar) }
 AstOf(d) == IF d = NoD THEN Emp ELSE (1 :> d)
 
 StarCase(st, dr, dt, dp, withTS) ==
@@ -58,6 +60,8 @@ VARIABLES st, dr, dt, dp, wts, n         \* dr, dt, dp : indices into the choice
 vars == <<st, dr, dt, dp, wts, n>>
 
 CentreSeq == SetToSeqG(CentreChoices)
+TSSeq     == SetToSeqG(TSChoices)
+NoDIdxT == CHOOSE k \in 1..Len(TSSeq) : TSSeq[k] = NoD
 BondSeq   == SetToSeqG(BondChoices)
 NoDIdxC == CHOOSE k \in 1..Len(CentreSeq) : CentreSeq[k] = NoD
 BCode(s) == CASE s = "r" -> 1 [] s = "p" -> 2 [] s = "both" -> 3 [] s = "ts" -> 4 [] OTHER -> 5
@@ -68,14 +72,14 @@ Init ==
    /\ n = 0 /\ wts \in BOOLEAN
    /\ IF Fam = "star"
         THEN /\ st \in [1..3 -> BondStates] /\ dr \in 1..Len(CentreSeq) /\ dp \in 1..Len(CentreSeq)
-             /\ dt \in (IF wts THEN 1..Len(CentreSeq) ELSE {NoDIdxC})
+             /\ dt \in (IF wts THEN 1..Len(TSSeq) ELSE {NoDIdxT})
         ELSE /\ st \in [1..1 -> BondStates] /\ dr \in 1..Len(BondSeq) /\ dp \in 1..Len(BondSeq) /\ dt = 1
    /\ (~wts => \A k \in DOMAIN st : st[k] # "ts")
    /\ Pick
 Next == UNCHANGED vars
 Spec == Init /\ [][Next]_vars
 
-Case == IF Fam = "star" THEN StarCase(st, CentreSeq[dr], CentreSeq[dt], CentreSeq[dp], wts)
+Case == IF Fam = "star" THEN StarCase(st, CentreSeq[dr], TSSeq[dt], CentreSeq[dp], wts)
         ELSE EthCase(st[1], BondSeq[dr], BondSeq[dp], wts)
 
 Emit == PrintT("R|" \o JObj(<< JKV("r", GJ(Case.r)), JKV("p", GJ(Case.p)), JKV("ts", GJ(Case.ts)) >>))
